@@ -189,4 +189,42 @@ example : parseTimeout (natToDec 15 ++ [83]) = .deadline (15 * 1000000000) := by
   rw [digitsVal_natToDec] at h
   exact h (by decide)
 
+/-- **The header applies whatever the request context already carries**: for every header value that
+    decodes to a duration `d`, and every deadline (or none) already on the request's context, the
+    handler's deadline exists, is never later than `now + d` (so never later than the caller's by more
+    than transit and granularity), never later than the server's own bound, and *is* `now + d` when the
+    server's bound is absent or later. The guard and the extended context are regenerated facts. -/
+theorem C09_deadline_under_bounded_parent (parent : Option Int) (now : Int) (s : Bytes) (d : Int)
+    (hp : parseTimeout s = .deadline d) :
+    ∃ x, handlerDeadline parent now s = some x ∧ x ≤ now + d ∧
+      (∀ p, parent = some p → x ≤ p) ∧
+      ((parent = none ∨ ∃ p, parent = some p ∧ now + d ≤ p) → x = now + d) := by
+  have hsite : applySiteAsModelled = true := by decide
+  unfold handlerDeadline
+  rw [hp]
+  simp only [hsite, if_true]
+  refine ⟨_, rfl, ?_, ?_, ?_⟩
+  · unfold withTimeout; cases parent with
+    | none => simp
+    | some p => simp only; omega
+  · intro p hp'; subst hp'; unfold withTimeout; simp only; omega
+  · intro h
+    rcases h with h | ⟨p, h, hle⟩
+    · subst h; rfl
+    · subst h; unfold withTimeout; simp only; omega
+
+/-- without a (valid) header the handler keeps exactly the request context's deadline: the transport adds none -/
+theorem C09_no_header_keeps_parent (parent : Option Int) (now : Int) :
+    handlerDeadline parent now [] = parent := by
+  unfold handlerDeadline; rw [C09_no_header_no_deadline]
+
+/-- non-vacuity: "5S" under a server-wide bound one hour away gives the caller's five seconds -/
+example : handlerDeadline (some 3600000000000) 0 (natToDec 5 ++ [83]) = some 5000000000 := by
+  have h := (C09_parse_valid (natToDec 5) (natToDec_allDigits _) 83 (by decide)).1
+  rw [digitsVal_natToDec] at h
+  have hp := h (by decide)
+  obtain ⟨x, hx, _, _, heq⟩ := C09_deadline_under_bounded_parent (some 3600000000000) 0 _ _ hp
+  rw [hx, heq (Or.inr ⟨_, rfl, by decide⟩)]
+  decide
+
 end Timeout
